@@ -14,6 +14,7 @@ from ..values import BPAdapter, DUR_MAX_US, TS_MAX_US, TS_MIN_US
 from .c03 import features, validate
 
 LEVEL = "translation_validation"
+PROGRAM_TARGETS = ("all_cardinalities_service_x_options", "grammar_schemas_x_options")
 QUICK_SHARDS = 8
 THOROUGH_SHARDS = 16
 VARIANTS = [(), ("typing.root",), ("typing.310",), ("pydantic_dataclasses",), ("typing.root", "pydantic_dataclasses"), ("typing.310", "pydantic_dataclasses")]
